@@ -59,6 +59,7 @@ class Facts:
         self.univ = []
         self.ground = {}
         self.ground_ids = set()
+        self.gen = {}
         self.done = set()
         self.sizes = {}
 
@@ -139,6 +140,7 @@ class Exec:
         self.bound_ids = set()
         self.facts = Facts()
         self.pol = 0
+        self.touch_templates = None
 
     # ------------------------------------------------------------------ fresh names / symbols
     def fresh(self, prefix, sort):
@@ -281,15 +283,28 @@ class Exec:
             stack.extend(t.children())
         return False
 
-    def touch(self, ty, term):
+    MAXGEN = 1
+
+    def touch(self, ty, term, gen=0):
         if self.has_bound(term):
+            if self.touch_templates is not None:
+                self.touch_templates.append((ty, term))
             return
         term = z3.simplify(term)
         i = term.get_id()
         if i in self.facts.ground_ids:
             return
         self.facts.ground_ids.add(i)
+        self.facts.gen[i] = gen
         self.facts.ground.setdefault(sort_key(ty), []).append(term)
+
+    def touch_instances(self, u, terms):
+        """Ground terms a universal's body mentions (dict keys, list indices) once its bound variables are instantiated."""
+        g = max([self.facts.gen.get(z3.simplify(t).get_id(), 0) for t in terms] + [0]) + 1
+        if g > self.MAXGEN:
+            return
+        for ty, tmpl in u.touches:
+            self.touch(ty, z3.substitute(tmpl, *zip(u.vars, terms)), gen=g)
 
     def add_universal(self, tys, fn, label="", keep=True):
         """Record `forall xs. fn(xs)`.  fn is evaluated once on fresh bound constants; lemma facts emitted while
@@ -299,15 +314,19 @@ class Exec:
         vars_ = [self.fresh("bv", t.sort()) for t in tys]
         saved = self.collector
         self.collector = []
+        self.touch_templates = []
         self.bound_ids = {v.get_id() for v in vars_}
         try:
             main = fn(*vars_)
             side = list(self.collector)
             body = z3.And(*(side + [main])) if side else main
+            templates = self.touch_templates
         finally:
             self.collector = saved
             self.bound_ids = set()
+            self.touch_templates = None
         u = Universal(tys, vars_, body, label)
+        u.touches = templates
         u.side = side
         u.body_main = fn.main() if hasattr(fn, "main") else main
         if keep:
@@ -333,7 +352,9 @@ class Exec:
                 for idxs in itertools.product(*[range(n) for n in sizes]):
                     if all(i < o for i, o in zip(idxs, old)):
                         continue
-                    F.add(self.inst(u, [pools[a][i] for a, i in enumerate(idxs)]))
+                    combo = [pools[a][i] for a, i in enumerate(idxs)]
+                    F.add(self.inst(u, combo))
+                    self.touch_instances(u, combo)
                     changed = True
             if not changed:
                 break
@@ -494,6 +515,8 @@ class Exec:
             if isinstance(v, VOpt):
                 return z3.If(v.isnone, s.constructor(0)(), s.constructor(1)(self.to_term(v.val, ty.inner)))
             return s.constructor(1)(self.to_term(v, ty.inner))
+        if isinstance(v, VOpt) and self.spec_mode:
+            return self.to_term(v.val, ty)  # specifications are total: the value is only meaningful under `is not None`
         raise Unsupported("to_term %r as %r" % (v, ty))
 
     def from_term(self, t, ty):
@@ -521,6 +544,7 @@ class Exec:
         self.touch(d.ty.k, k)
         self.assume(z3.Implies(d.has[k], d.count >= 1))
         self.assume(z3.Implies(d.count == 0, z3.Not(d.has[k])))
+        self.nonempty_witness(d.has, d.count, d.ty.k)
         for m in d.ty.measures:
             mv = self.measure(d.ty, m, d.val[k])
             self.assume(z3.Implies(z3.And(d.nonneg[m], d.has[k]), z3.And(mv >= 0, mv <= d.sums[m])))
@@ -605,8 +629,22 @@ class Exec:
         self.materialize(v, ty)
 
     # --- ordset (deque used as recency order)
+    def nonempty_witness(self, mem, count, kty):
+        """A non-empty finite map/set has a member: count > 0 => mem[w] for a witness w (one per container version)."""
+        if self.bound_ids or self.collector is not None:
+            return
+        key = mem.get_id()
+        if key in self.witnesses:
+            return
+        w = z3.Const("wit!%d" % len(self.witnesses), kty.sort())
+        self.witnesses[key] = w
+        self.touch(kty, w)
+        self.assume(z3.Implies(count > 0, mem[w]))
+        self.assume(count >= 0)
+
     def os_lemmas(self, o, k):
         self.touch(o.ty.k, k)
+        self.nonempty_witness(o.mem, o.count, o.ty.k)
         self.assume(z3.Implies(o.mem[k], o.count >= 1))
         self.assume(z3.Implies(o.count == 0, z3.Not(o.mem[k])))
 
@@ -658,6 +696,22 @@ class Exec:
         self.set_cont(v, no)
         self.os_lemmas(no, kt)
 
+    def os_peek(self, v, left):
+        """dq[0] / dq[-1]: the least / most recent member."""
+        o = self.cont(v)
+        if not self.spec_mode and not self.branch(o.count > 0):
+            raise PyRaise(VExc("IndexError", []))
+        x = self.fresh("peek", o.ty.k.sort())
+        self.touch(o.ty.k, x)
+        self.assume(o.mem[x])
+        mem, stamp = o.mem, o.stamp
+        if left:
+            self.add_universal([o.ty.k], lambda k: z3.Implies(mem[k], stamp[x] <= stamp[k]), "peek-min")
+        else:
+            self.add_universal([o.ty.k], lambda k: z3.Implies(mem[k], stamp[x] >= stamp[k]), "peek-max")
+        self.os_lemmas(o, x)
+        return self.from_term(x, o.ty.k)
+
     def os_popleft(self, v):
         o = self.cont(v)
         if not self.branch(o.count > 0):
@@ -678,6 +732,7 @@ class Exec:
         if isinstance(c, EmptyV):
             c = self.materialize(v, TList(self.type_of(x) if not isinstance(x, VOpt) else self.type_of(x)))
         xt = self.to_term(x, c.ty.e)
+        self.touch(TInt, c.n)
         self.set_cont(v, c.replace(arr=z3.Store(c.arr, c.n, xt), n=c.n + 1, idx=None))
 
     def list_get(self, v, i):
